@@ -14,5 +14,10 @@ func controlsC11() []Control {
 		{Name: "pay signals the first seat", Expect: "R5", Mutate: replaceIn("(*game).Pay", "g.rg.Ready(int64(playerIdx))", "g.rg.Ready(0)", 0)},
 		{Name: "blinds handler never starts waiting", Expect: "R2", Mutate: replaceIn("(*game).onBlindsRequested", "\tg.rg.Start()\n", "", 0)},
 		{Name: "dealer blind never asked", Expect: "R4", Mutate: replaceIn("(*game).onBlindsRequested", " else if gs.Meta.Blind.Dealer > 0 && gs.HasPosition(p.Idx, Position_Dealer) {\n\t\t\tg.rg.Add(int64(p.Idx), false)\n\t\t\tp.AllowAction(Action_Pay)\n\t\t}", "", 0)},
+		{Name: "engine hook forgets to keep the new hand state", Expect: "R8", Mutate: replaceIn("(*tableEngine).updateGameState", "\tte.table.State.GameState = gs\n", "", 0)},
+		{Name: "engine hook never registered with the hand", Expect: "R8", Mutate: replaceIn("(*tableEngine).startGame", "te.game.OnGameStateUpdated(func(gs *pokerface.GameState) {\n\t\tte.updateGameState(gs)\n\t})", "", 0)},
+		{Name: "engine hook does not publish the new state", Expect: "R8", Mutate: replaceIn("(*tableEngine).updateGameState", "\t\tte.emitTableStateEvent(TableStateEvent_GameUpdated)\n", "", 0)},
+		{Name: "hand keeps queueing states only after it was closed", Expect: "R8", Mutate: replaceIn("(*game).updateGameState", "if g.isClosed {", "if !g.isClosed {", 0)},
+		{Name: "dispatcher skips the engine hook", Expect: "R8", Mutate: replaceIn("(*game).handleGameState", "\tg.onGameStateUpdated(gs)\n", "", 0)},
 	}
 }
